@@ -1121,6 +1121,10 @@ CaseX86M_GPB_MulDiv:
         if (mem_size == 4)
           imm_value = sign_extend_int32<int64_t>(imm_value);
 
+        // A 64-bit operation sign-extends imm32, so the immediate must be a signed 32-bit value (like the register form).
+        if (mem_size == 8 && !Support::is_int_n<32>(imm_value))
+          goto InvalidImmediate;
+
         if (Support::is_int_n<8>(imm_value) && !Support::test(options, InstOptions::kLongForm))
           imm_size = 1;
 
